@@ -90,6 +90,8 @@ func (r *runner) compile(src string, lines [][][2]int, real bool) (b run.Built, 
 	run.WriteFiles(dir, map[string]string{"main.fer": src})
 	if r.target == "wasm" {
 		b = r.rn.CompileWasm(dir, "main.fer")
+	} else if real {
+		b = r.rn.Real().CompileNative(dir, "main.fer")
 	} else {
 		b = r.rn.CompileNative(dir, "main.fer")
 	}
